@@ -219,6 +219,22 @@ func cmdCheck(args []string) int {
 			jobs = append(jobs, &job{vc: vc, o: o})
 		}
 	}
+	// inventories: where calls of a given shape may occur in a package tree
+	for _, iv := range cs.Inventories {
+		has := false
+		for _, pr := range iv.Props {
+			if pr == id {
+				has = true
+			}
+		}
+		if !has || (only != "" && !strings.Contains(iv.Name, only)) {
+			continue
+		}
+		vc := inventoryVC(p, iv)
+		for _, o := range vc.obls {
+			jobs = append(jobs, &job{vc: vc, o: o})
+		}
+	}
 	genS := time.Since(tGen).Seconds()
 	timeout := 10
 	all := false
